@@ -12,7 +12,10 @@ import tempfile
 from .. import common, shim, gen
 from . import seqprop
 
-GEN = ["JsonUtilGen.v", "Locks.v"]
+GEN = ['JsonUtilGen.v', 'Locks.v', 'Decisions.v']
+DECISIONS = ['FileBuilder._append_suboperation', 'FileBuilder._assert_not_finished', 'FileBuilder._exec_simple_operation']
+SITES = False
+ORDER = False
 
 _t2, _t3 = seqprop.make_module("C17", ["entry"], seqprop.default_cases(dict(stale=0.6), 40, 400),
                                nontrivial=lambda c, o, st: any("stale_ask" in json.dumps(s) for s in c["history"]))
